@@ -208,6 +208,8 @@ def main(prop, tier, seed, replay=None):
                     t, f = gsyn.gen_file(random.Random(r2.getrandbits(48)), avoid, ndecl=r2.randint(1, 3))
                     if hc.run_requests([{"op": "ast", "src": t}], nproc=1)[0].get("ok"):
                         break
+                if r2.random() < 0.25 and '"""' not in t and "'''" not in t:
+                    t = t.replace("\n", "\r\n")  # a file with CRLF line endings (multi-line strings excluded: their content would change)
                 files[("sub/" if r2.random() < 0.3 else "") + "f%d.incn" % q] = t
             case = {"kind": "cli", "files": files, "dir_mode": r2.random() < 0.5}
             v = cli_scenario(case)
